@@ -62,24 +62,36 @@ Definition nset_eqb (a b : list N) : bool :=
 
 Definition op_closed (o : op) : list N := match o with Hangup h _ _ => [h] | _ => [] end.
 
-(* agreement of one op's model outputs with the observation *)
-Definition op_conf (o : op) (os : list out) (ob : oobs) : bool :=
+(* A property compares only the frames relevant to it: `kinds` = wire names kept ([] = all),
+   `mk` = kept modulator calls (0 auth, 1 fbp, 2 event, 3 spp; [] = all), `cl` = compare closes. *)
+Definition keep_frame (kinds : list (list N)) (f : frame) : bool :=
+  match kinds with [] => true | _ => existsb (list_eqb (kind_name (fst f))) kinds end.
+Definition mod_tag (c : modcall) : N := match c with McAuth _ => 0 | McFbp _ _ _ => 1 | McEvent _ _ _ _ => 2 | McSpp _ _ => 3 end.
+Definition keep_mod (mk : list N) (c : modcall) : bool :=
+  match mk with [] => true | _ => existsb (N.eqb (mod_tag c)) mk end.
+
+Definition op_conf_k (kinds : list (list N)) (mk : list N) (cl : bool) (o : op) (os : list out) (ob : oobs) : bool :=
   let hs := out_handlers os ++ map fst (ob_frames ob) in
-  forallb (fun h => frames_eqb (canon (frames_for h os))
-                               (canon (match nlookup h (ob_frames ob) with Some l => l | None => [] end))) hs
-  && nset_eqb (closed_of os ++ op_closed o) (ob_closed ob)
-  && modcalls_eqb (canon_mods (mods_of os)) (canon_mods (ob_mod ob)).
+  forallb (fun h => frames_eqb (canon (filter (keep_frame kinds) (frames_for h os)))
+                               (canon (filter (keep_frame kinds) (match nlookup h (ob_frames ob) with Some l => l | None => [] end)))) hs
+  && (negb cl || nset_eqb (closed_of os ++ op_closed o) (ob_closed ob))
+  && modcalls_eqb (canon_mods (filter (keep_mod mk) (mods_of os))) (canon_mods (filter (keep_mod mk) (ob_mod ob))).
+
+Definition op_conf (o : op) (os : list out) (ob : oobs) : bool := op_conf_k [] [] true o os ob.
 
 (* index of the first disagreeing op + 1, or 0 when the whole history conforms *)
-Fixpoint conf_from (i : N) (cfg : scfg) (s : state) (ops : list op) (obs : list oobs) : N :=
+Fixpoint conf_from_k (kinds : list (list N)) (mk : list N) (cl : bool) (i : N) (cfg : scfg) (s : state) (ops : list op) (obs : list oobs) : N :=
   match ops, obs with
   | [], [] => 0
   | o :: ops', ob :: obs' =>
       let '(s', os) := step cfg s o in
-      if op_conf o os ob then conf_from (i + 1) cfg s' ops' obs' else i + 1
+      if op_conf_k kinds mk cl o os ob then conf_from_k kinds mk cl (i + 1) cfg s' ops' obs' else i + 1
   | _, _ => i + 1
   end.
+Definition conf_from := conf_from_k [] [] true.
 Definition conf_case (cfg : scfg) (ops : list op) (obs : list oobs) : bool := conf_from 0 cfg init ops obs =? 0.
+Definition conf_case_k (kinds : list (list N)) (mk : list N) (cl : bool) (cfg : scfg) (ops : list op) (obs : list oobs) : bool :=
+  conf_from_k kinds mk cl 0 cfg init ops obs =? 0.
 
 Definition ob (fr : list (N * list frame)) (cl : list N) (md : list modcall) : oobs :=
   {| ob_frames := fr; ob_closed := cl; ob_mod := md |}.
